@@ -86,6 +86,7 @@ type AdapterSpec struct {
 	CtxD       D               `json:"ctx_d,omitempty"`
 	Policies   []AdapterPolicy `json:"policies"`
 	Server     []ServerStep    `json:"server"`
+	UploadDelay D              `json:"upload_delay,omitempty"` // the transport takes this long per piece of the request body (slow upload)
 	CancelAt   D               `json:"cancel_at,omitempty"` // cancel the cancellable caller context this long after the call started (0 = never)
 	Repeat     int             `json:"repeat,omitempty"`
 }
@@ -296,7 +297,23 @@ func (t *simTransport) RoundTrip(req *http.Request) (*http.Response, error) {
 	}
 	var got []byte
 	if req.Body != nil {
-		got, _ = io.ReadAll(req.Body)
+		// like a real transport, the body is written out piecewise while other attempts may run
+		chunk := len(w.body)/4 + 1
+		buf := make([]byte, chunk)
+		for {
+			k, rerr := req.Body.Read(buf)
+			got = append(got, buf[:k]...)
+			if rerr != nil || len(got) > len(w.body)+chunk {
+				break
+			}
+			if w.spec.UploadDelay > 0 {
+				if waitOrCancel(w.spec.UploadDelay, req.Context().Done(), "http.body.write") {
+					break
+				}
+			} else {
+				simrt.Yield("http.body.write")
+			}
+		}
 		req.Body.Close()
 	}
 	if !bytes.Equal(got, w.body) {
